@@ -273,9 +273,19 @@ LensR(p, pre, m, f, o, r) ==
                w.k = "msg" /\ w.sender = (IF m.type \in DepTypes \cup {"ReplaceDepositForBurn"}
                                           THEN ModulePadded ELSE Pad(m.from))
     [] p = "C06" ->
-         exp.res = "ok" => /\ SentMsgs(o.evs) = SentMsgs(exp.evs)
-                           /\ EvsOf(o.evs, "DepositForBurn") = EvsOf(exp.evs, "DepositForBurn")
-                           /\ o.resp = exp.resp
+         /\ exp.res = "ok" => /\ SentMsgs(o.evs) = SentMsgs(exp.evs)
+                              /\ EvsOf(o.evs, "DepositForBurn") = EvsOf(exp.evs, "DepositForBurn")
+                              /\ o.resp = exp.resp
+         \* the content, stated directly from the request and the configuration (whatever the oracle's verdict):
+         \* a deposit's message goes to the messenger REGISTERED for the destination and carries the burn as requested
+         /\ m.type \in DepTypes =>
+              /\ HasMsgr(pre, m.dst)
+              /\ SentMsgs(o.evs) = <<WireMsg(0, NOBLE, m.dst, pre.nextNonce, ModulePadded, MsgrOf(pre, m.dst).addr,
+                                             IF IsDepC(m) THEN m.caller ELSE Zero32,
+                                             BurnBody(0, KTok(MintLower), m.mrcpt, m.amt, Pad(m.from)))>>
+         /\ m.type \in {"SendMessage", "SendMessageWithCaller"} =>
+              SentMsgs(o.evs) = <<WireMsg(0, NOBLE, m.dst, pre.nextNonce, Pad(m.from), m.rcpt,
+                                         IF m.type = "SendMessage" THEN Zero32 ELSE m.caller, m.body)>>
     [] p = "C07" ->
          LET fresh == m.type \in FreshTypes /\ res = "ok" IN
          /\ o.post.nextNonce = pre.nextNonce + (IF fresh THEN 1 ELSE 0)
